@@ -3,6 +3,7 @@ symbolic scopes with the recursive generate_expr replaced by a contract stub; th
 the obligations tagged C01."""
 from vlib.runner import Job
 from vlib import genunits as U
+from vlib import genunits_cls as UC
 from vlib.symex import Ob
 
 ASPECT = 'C01'
@@ -32,6 +33,7 @@ def jobs(tier):
                        budget_s=2400, crosscheck_every=500,
                        bounds='expected type one of Kk<in Bb>, Kk<out Bb>, Kk<Bb> for the class Kk<T3 : Bb> (Bb : Aa); every RNG '
                               'outcome', outside=U.OUT))
+    out += UC.jobs(ASPECT, tier, langs)
     return out
 
 
